@@ -1,5 +1,6 @@
 import Uft.Model.Events
 import Uft.Lemmas.Mcount
+import Uft.Model.CallTree
 /- helper lemmas for Props/C17 -/
 set_option linter.unusedSimpArgs false
 set_option linter.unusedVariables false
@@ -274,7 +275,7 @@ theorem entryE_plain (cfg : ECfg) (hp : PlainE cfg) (k : Kind) (s : ESt) (d f t0
   cases k <;>
   simp [entryE, entryFilterCheckE, checkRstackE, hidx, hp.plain.optIn, hp.plain.locIn, hp.plain.trig,
     saveFilt, matchFilt, earlyOut, trigFilt, depthLimit, trigEnabled,
-    entryFilterRecordE, entryEvents, hw, hasAsync, h3, h4, h5, h6, h7, h8, h9, h10, h12, hnd, entryFrame, freshFrame,
+    entryFilterRecordE, entryEvents, entryFinish, watchStep, hw, hasAsync, h3, h4, h5, h6, h7, h8, h9, h10, h12, hnd, entryFrame, freshFrame,
     plainFrame, h2]
   all_goals refine ⟨by simp [show (Kind.pg == Kind.cyg) = false from rfl, show (Kind.cyg == Kind.pg) = false from rfl], ?_⟩
   all_goals (constructor <;> simp_all [NoSkipE, entryArea_b])
@@ -435,7 +436,7 @@ theorem exitE_unfold (cfg : ECfg) (hp : PlainE cfg) (s2 : ESt) (top : EFrame) (r
           (exitArea cfg (setEnd top t1) (rest.length + 1) o :: rest) []).2.2 } := by
   have hwt : cfg.watch = false := by simp [ECfg.watch, hp.nocpu, hp.novars]
   have hxb := (exitArea_b cfg (setEnd top t1) (rest.length + 1) o).1
-  simp [exitE, hover, hfr, hnr, exitFilterRecordE, exitEvents, hwt, hft, hp.plain.thr, hp.plain.caller, hen, hpend,
+  simp [exitE, hover, hfr, hnr, exitFilterRecordE, exitEvents, exitFinish, watchStep, hwt, hft, hp.plain.thr, hp.plain.caller, hen, hpend,
     ESt.recorded, hdur]
 
 
@@ -859,5 +860,505 @@ theorem exitRecord_exitFrame (cfg : ECfg) (k : Kind) (f t0 t1 d : Nat) (oE oX : 
   cases cfg.retSize f with
   | none => simp
   | some n => by_cases h : n ≤ ARG_MAX <;> simp [h]
+
+
+/-! ### events do not disturb the ENTRY/EXIT records -/
+
+/-- the ENTRY/EXIT record of a stream element, if it is one -/
+def recOf : Out → Option Rec
+  | .record r _ => some r
+  | .event _ => none
+
+mutual
+  /-- a call history without the observations -/
+  def ECall.erase : ECall → Call
+    | .node f t0 t1 _ _ kids => .node f t0 t1 kids.erase
+  def ECalls.erase : ECalls → Calls
+    | .nil => .nil
+    | .cons c rest => .cons c.erase rest.erase
+end
+
+theorem filterMap_recOf_events (l : List Ev) : (l.map Out.event).filterMap recOf = [] := by
+  induction l with
+  | nil => rfl
+  | cons e r ih => simp [recOf, ih]
+
+mutual
+theorem recs_specCall (cfg : ECfg) (k : Kind) : ∀ (d : Nat) (c : ECall),
+    (specCall cfg k d c).filterMap recOf = evCall d c.erase
+  | d, .node f t0 t1 oE oX kids => by
+    have hk := recs_specCalls cfg k (d + 1) kids
+    simp only [specCall, exitOut, entryOut_entryFrame, exitRecord_exitFrame, List.filterMap_append,
+      filterMap_recOf_events, hk, ECall.erase, evCall]
+    simp [recOf]
+theorem recs_specCalls (cfg : ECfg) (k : Kind) : ∀ (d : Nat) (cs : ECalls),
+    (specCalls cfg k d cs).filterMap recOf = evCalls d cs.erase
+  | d, .nil => by simp [specCalls, ECalls.erase, evCalls]
+  | d, .cons c rest => by
+    simp [specCalls, ECalls.erase, evCalls, recs_specCall cfg k d c, recs_specCalls cfg k d rest]
+end
+
+
+/-! ### save_watchpoint -/
+
+/-- `s'` differs from `s` at most in the pending events and the watch state -/
+structure SameBut (s s' : ESt) : Prop where
+  frames : s'.frames = s.frames
+  over : s'.over = s.over
+  recordIdx : s'.recordIdx = s.recordIdx
+  warned : s'.warned = s.warned
+  filt : s'.filt = s.filt
+  enabled : s'.enabled = s.enabled
+  enableCached : s'.enableCached = s.enableCached
+  finished : s'.finished = s.finished
+  out : s'.out = s.out
+
+theorem SameBut.refl (s : ESt) : SameBut s s := by constructor <;> rfl
+
+theorem SameBut.trans {a b c : ESt} (h1 : SameBut a b) (h2 : SameBut b c) : SameBut a c := by
+  constructor
+  · rw [h2.frames, h1.frames]
+  · rw [h2.over, h1.over]
+  · rw [h2.recordIdx, h1.recordIdx]
+  · rw [h2.warned, h1.warned]
+  · rw [h2.filt, h1.filt]
+  · rw [h2.enabled, h1.enabled]
+  · rw [h2.enableCached, h1.enableCached]
+  · rw [h2.finished, h1.finished]
+  · rw [h2.out, h1.out]
+
+/-- a watch event saved at time `t` with tag `ridx` -/
+def IsWatchEv (t ridx : Nat) (e : Ev) : Prop :=
+  e.time = t ∧ e.idx = ridx ∧ (e.id = EVENT_ID_WATCH_CPU ∨ e.id = EVENT_ID_WATCH_VAR)
+
+theorem saveWatchCpu_spec (s : ESt) (t ridx cpu : Nat) (init : Bool) :
+    SameBut s (saveWatchCpu s t ridx cpu init) ∧
+    ∃ W, (saveWatchCpu s t ridx cpu init).pend = s.pend ++ W ∧ ∀ e ∈ W, IsWatchEv t ridx e := by
+  unfold saveWatchCpu
+  refine ⟨by constructor <;> rfl, ?_⟩
+  simp only
+  split
+  · exact ⟨[cpuEv t ridx cpu], rfl, by simp [IsWatchEv, cpuEv]⟩
+  · exact ⟨[], by simp, by simp⟩
+
+theorem saveWatchVar_spec (cfg : ECfg) (t ridx : Nat) (s : ESt) (k size v : Nat) :
+    SameBut s (saveWatchVar cfg t ridx s k size v) ∧
+    ∃ W, (saveWatchVar cfg t ridx s k size v).pend = s.pend ++ W ∧ ∀ e ∈ W, IsWatchEv t ridx e := by
+  unfold saveWatchVar
+  by_cases h1 : s.pend.length ≥ MAX_EVENT
+  · simp only [h1, ↓reduceIte]
+    exact ⟨SameBut.refl s, [], by simp, by simp⟩
+  · by_cases h2 : (s.wcopy[k]? == some v) = true
+    · simp only [h1, h2, ↓reduceIte]
+      exact ⟨SameBut.refl s, [], by simp, by simp⟩
+    · by_cases h3 : (s.glob[k]? == some (some v)) = true
+      · simp only [h1, h2, h3, ↓reduceIte]
+        cases cfg.fixVar
+        · exact ⟨SameBut.refl s, [], by simp, by simp⟩
+        · exact ⟨by constructor <;> rfl, [], by simp, by simp⟩
+      · simp only [h1, h2, h3, ↓reduceIte]
+        cases cfg.fixVar
+        · exact ⟨by constructor <;> rfl, [varEv t ridx k size v], rfl, by simp [IsWatchEv, varEv]⟩
+        · exact ⟨by constructor <;> rfl, [varEv t ridx k size v], rfl, by simp [IsWatchEv, varEv]⟩
+
+theorem saveWatchVars_spec (cfg : ECfg) (t ridx : Nat) : ∀ (szs vs : List Nat) (s : ESt) (k : Nat),
+    SameBut s (saveWatchVars cfg t ridx s k szs vs) ∧
+    ∃ W, (saveWatchVars cfg t ridx s k szs vs).pend = s.pend ++ W ∧ ∀ e ∈ W, IsWatchEv t ridx e
+  | [], vs, s, k => by
+    simp only [saveWatchVars]
+    exact ⟨SameBut.refl s, [], by simp, by simp⟩
+  | size :: szs, [], s, k => by
+    simp only [saveWatchVars]
+    exact ⟨SameBut.refl s, [], by simp, by simp⟩
+  | size :: szs, v :: vs, s, k => by
+    simp only [saveWatchVars]
+    obtain ⟨a1, W1, b1, c1⟩ := saveWatchVar_spec cfg t ridx s k size v
+    obtain ⟨a2, W2, b2, c2⟩ := saveWatchVars_spec cfg t ridx szs vs (saveWatchVar cfg t ridx s k size v) (k + 1)
+    refine ⟨a1.trans a2, W1 ++ W2, by rw [b2, b1]; simp, ?_⟩
+    intro e he
+    simp only [List.mem_append] at he
+    rcases he with he | he
+    · exact c1 e he
+    · exact c2 e he
+
+theorem saveWatchCpu_winited (s : ESt) (t ridx cpu : Nat) (init : Bool) :
+    (saveWatchCpu s t ridx cpu init).winited = s.winited := rfl
+
+theorem saveWatchVar_winited (cfg : ECfg) (t ridx : Nat) (s : ESt) (k size v : Nat) :
+    (saveWatchVar cfg t ridx s k size v).winited = s.winited := by
+  unfold saveWatchVar
+  by_cases h1 : s.pend.length ≥ MAX_EVENT
+  · simp [h1]
+  · by_cases h2 : (s.wcopy[k]? == some v) = true
+    · simp [h1, h2]
+    · by_cases h3 : (s.glob[k]? == some (some v)) = true <;> simp only [h1, h2, h3, ↓reduceIte] <;>
+        cases cfg.fixVar <;> rfl
+
+theorem saveWatchVars_winited (cfg : ECfg) (t ridx : Nat) : ∀ (szs vs : List Nat) (s : ESt) (k : Nat),
+    (saveWatchVars cfg t ridx s k szs vs).winited = s.winited
+  | [], vs, s, k => by simp [saveWatchVars]
+  | size :: szs, [], s, k => by simp [saveWatchVars]
+  | size :: szs, v :: vs, s, k => by
+    simp only [saveWatchVars]
+    rw [saveWatchVars_winited cfg t ridx szs vs, saveWatchVar_winited]
+
+/-- the time stamp save_watchpoint gives its events: one behind the hook's record, or one ahead
+    of it for the thread's very first observation -/
+def watchTime (b : Frame) (inited : Bool) : Nat := hookTime b + (if !inited then 2 else 0) - 1
+
+/-- the tag save_watchpoint gives its events -/
+def watchTag (cfg : ECfg) (ri : Nat) : Nat := if cfg.fixIdx then ri + 1 else ri
+
+theorem saveWatch_spec (cfg : ECfg) (s : ESt) (b : Frame) (ri : Nat) (o : Obs) :
+    SameBut s (saveWatch cfg s b ri o) ∧
+    (saveWatch cfg s b ri o).winited = true ∧
+    ∃ W, (saveWatch cfg s b ri o).pend = s.pend ++ W ∧
+      ∀ e ∈ W, IsWatchEv (watchTime b s.winited) (watchTag cfg ri) e := by
+  unfold saveWatch
+  simp only
+  have h0 : SameBut s { s with winited := true } := by constructor <;> rfl
+  by_cases hc : cfg.watchCpu = true
+  · simp only [hc, ↓reduceIte]
+    obtain ⟨a1, W1, b1, c1⟩ := saveWatchCpu_spec { s with winited := true }
+      (hookTime b + (if (!s.winited) = true then 2 else 0) - 1) (if cfg.fixIdx = true then ri + 1 else ri) o.cpu (!s.winited)
+    obtain ⟨a2, W2, b2, c2⟩ := saveWatchVars_spec cfg
+      (hookTime b + (if (!s.winited) = true then 2 else 0) - 1) (if cfg.fixIdx = true then ri + 1 else ri)
+      cfg.varSizes o.vars (saveWatchCpu { s with winited := true }
+        (hookTime b + (if (!s.winited) = true then 2 else 0) - 1) (if cfg.fixIdx = true then ri + 1 else ri) o.cpu (!s.winited)) 0
+    refine ⟨h0.trans (a1.trans a2), ?_, W1 ++ W2, by rw [b2, b1]; simp, ?_⟩
+    · rw [saveWatchVars_winited, saveWatchCpu_winited]
+    · intro e he
+      simp only [List.mem_append] at he
+      rcases he with he | he
+      · exact c1 e he
+      · exact c2 e he
+  · simp only [hc, Bool.false_eq_true, ↓reduceIte]
+    obtain ⟨a2, W2, b2, c2⟩ := saveWatchVars_spec cfg
+      (hookTime b + (if (!s.winited) = true then 2 else 0) - 1) (if cfg.fixIdx = true then ri + 1 else ri)
+      cfg.varSizes o.vars { s with winited := true } 0
+    refine ⟨h0.trans a2, ?_, W2, by rw [b2], c2⟩
+    rw [saveWatchVars_winited]
+
+
+theorem watchStep_spec (cfg : ECfg) (s : ESt) (b : Frame) (ri : Nat) (o : Obs) :
+    SameBut s (watchStep cfg s b ri o) ∧
+    ∃ W, (watchStep cfg s b ri o).pend = s.pend ++ W ∧
+      ∀ e ∈ W, IsWatchEv (watchTime b s.winited) (watchTag cfg ri) e := by
+  unfold watchStep
+  split
+  · obtain ⟨a, _, c⟩ := saveWatch_spec cfg s b ri o
+    exact ⟨a, c⟩
+  · exact ⟨SameBut.refl s, [], by simp, by simp⟩
+
+/-! ### calls dropped by the time filter -/
+
+/-- no filter or trigger in the underlying hook configuration; any threshold (-t), any
+    watchpoints, read triggers, arguments -/
+structure PlainT (cfg : ECfg) : Prop where
+  optIn : cfg.base.optIn = false
+  locIn : cfg.base.locIn = false
+  caller : cfg.base.callerMode = false
+  trig : ∀ f, cfg.base.trig f = {}
+  maxs : cfg.base.maxStack < ASYNC_IDX
+
+/-- the thread state between hooks at nesting depth `d`: nothing filtered; the pending watch events
+    belong to the open frames (tags below `d + 1`), none is asynchronous -/
+structure GoodT (s : ESt) (d : Nat) : Prop where
+  over : s.over = 0
+  len : s.frames.length = d
+  ridx : s.recordIdx = d
+  en : s.enabled = true
+  inc : s.filt.inCount = 0
+  outc : s.filt.outCount = 0
+  fdepth : s.filt.depth = d
+  fmax : s.filt.maxDepth = noMaxDepth
+  ftime : s.filt.time = noTime
+  fsize : s.filt.size = 0
+  noskip : NoSkipE s.frames
+  pend : ∀ e ∈ s.pend, e.idx < d + 1
+
+theorem hasAsync_false (p : List Ev) (h : ∀ e ∈ p, e.idx < ASYNC_IDX) : hasAsync p = false := by
+  unfold hasAsync
+  apply List.any_eq_false.mpr
+  intro e he
+  have := h e he
+  simp; omega
+
+theorem dropWhile_append_all {α : Type} (p : α → Bool) (a b : List α) (h : ∀ x ∈ a, p x = true) :
+    (a ++ b).dropWhile p = b.dropWhile p := by
+  induction a with
+  | nil => rfl
+  | cons x r ih => simp [List.dropWhile, h x (by simp), ih (fun y hy => h y (by simp [hy]))]
+
+theorem dropWhile_none {α : Type} (p : α → Bool) (b : List α) (h : ∀ x ∈ b, p x = false) : b.dropWhile p = b := by
+  cases b with
+  | nil => rfl
+  | cons x r => simp [List.dropWhile, h x (by simp)]
+
+/-- `mtdp->nr_events = k`: the events of the frame being left and of deeper frames go, the rest stays -/
+theorem keepSync_split (p0 W : List Ev) (n : Nat) (h0 : ∀ e ∈ p0, e.idx < n) (hW : ∀ e ∈ W, ¬ e.idx < n) :
+    keepSync (p0 ++ W) n = p0 := by
+  unfold keepSync
+  rw [List.reverse_append, dropWhile_append_all _ _ _ (by
+    intro x hx
+    simp only [List.mem_reverse] at hx
+    simpa using hW x hx), dropWhile_none _ _ (by
+    intro x hx
+    simp only [List.mem_reverse] at hx
+    simpa using h0 x hx)]
+  simp
+
+/-- the end of the entry hook when no asynchronous event is pending -/
+theorem entryFinish_spec (cfg : ECfg) (sB : ESt) (F : EFrame) (rest : List EFrame) (o : Obs)
+    (hp : ∀ e ∈ sB.pend, e.idx < ASYNC_IDX) (htag : watchTag cfg rest.length < ASYNC_IDX) :
+    (entryFinish cfg sB F rest o).frames = F :: rest ∧
+    (entryFinish cfg sB F rest o).out = sB.out ∧
+    (entryFinish cfg sB F rest o).over = sB.over ∧
+    (entryFinish cfg sB F rest o).recordIdx = sB.recordIdx ∧
+    (entryFinish cfg sB F rest o).filt = sB.filt ∧
+    (entryFinish cfg sB F rest o).enabled = sB.enabled ∧
+    ∃ W, (entryFinish cfg sB F rest o).pend = sB.pend ++ W ∧
+      ∀ e ∈ W, IsWatchEv (watchTime F.b sB.winited) (watchTag cfg rest.length) e := by
+  obtain ⟨hs, W, hW, hWe⟩ := watchStep_spec cfg sB F.b rest.length o
+  have hna : hasAsync (watchStep cfg sB F.b rest.length o).pend = false := by
+    apply hasAsync_false
+    intro e he
+    rw [hW] at he
+    simp only [List.mem_append] at he
+    rcases he with he | he
+    · exact hp e he
+    · rw [(hWe e he).2.1]; exact htag
+  unfold entryFinish
+  simp only [hna, Bool.false_eq_true, ↓reduceIte]
+  refine ⟨?_, hs.out, hs.over, hs.recordIdx, hs.filt, hs.enabled, W, hW, hWe⟩
+  first | rfl | trivial
+
+theorem entryFinish_good (cfg : ECfg) (sB : ESt) (F : EFrame) (rest : List EFrame) (o : Obs) (d : Nat)
+    (hlen : rest.length = d) (hmax : d + 1 < ASYNC_IDX)
+    (h1 : sB.over = 0) (h3 : sB.recordIdx = d + 1) (h4 : sB.enabled = true) (h5 : sB.filt.inCount = 0)
+    (h6 : sB.filt.outCount = 0) (h7 : sB.filt.depth = d + 1) (h8 : sB.filt.maxDepth = noMaxDepth)
+    (h9 : sB.filt.time = noTime) (h10 : sB.filt.size = 0)
+    (hF : F.b.norecord = false ∧ F.b.disabled = false) (hns : NoSkipE rest)
+    (hp : ∀ e ∈ sB.pend, e.idx < d + 1) :
+    GoodT (entryFinish cfg sB F rest o) (d + 1) := by
+  have htag : watchTag cfg rest.length < ASYNC_IDX := by unfold watchTag; split <;> omega
+  obtain ⟨a1, a2, a3, a4, a5, a6, W, a7, a8⟩ := entryFinish_spec cfg sB F rest o
+    (fun e he => by have := hp e he; omega) htag
+  constructor
+  · rw [a3, h1]
+  · rw [a1]; simp [hlen]
+  · rw [a4, h3]
+  · rw [a6, h4]
+  · rw [a5, h5]
+  · rw [a5, h6]
+  · rw [a5, h7]
+  · rw [a5, h8]
+  · rw [a5, h9]
+  · rw [a5, h10]
+  · rw [a1]
+    intro g hg
+    simp only [List.mem_cons] at hg
+    rcases hg with rfl | hg
+    · exact hF
+    · exact hns g hg
+  · intro e he
+    rw [a7] at he
+    simp only [List.mem_append] at he
+    rcases he with he | he
+    · have := hp e he; omega
+    · rw [(a8 e he).2.1, hlen]; unfold watchTag; split <;> omega
+
+/-- the thread state mcount_entry_filter_record hands to save_watchpoint for an unfiltered call -/
+def entryBase (s : ESt) (d : Nat) (F0 : EFrame) : ESt :=
+  { frames := F0 :: s.frames, over := s.over, recordIdx := d + 1,
+    filt := { depth := d + 1, svDepth := d, svMaxDepth := noMaxDepth, svTime := noTime },
+    enableCached := s.enableCached, finished := s.finished, pend := s.pend, winited := s.winited,
+    wcpu := s.wcpu, wcopy := s.wcopy, glob := s.glob, out := s.out }
+
+theorem entryE_T_unfold (cfg : ECfg) (hp : PlainT cfg) (k : Kind) (s : ESt) (d f t0 : Nat) (o : Obs)
+    (hg : GoodT s d) (hm : d < cfg.base.maxStack) (hd : d < cfg.base.depthOpt) :
+    entryE cfg k s f t0 o =
+      (entryFinish cfg (entryBase s d { b := { addr := f, start := t0, depth := d, cyg := k == .cyg } })
+        (entryFrame cfg k f t0 d o) s.frames o, true) := by
+  obtain ⟨h1, h2, h3, h4, h5, h6, h7, h8, h9, h10, h11, h12⟩ := hg
+  have hidx : ¬ (s.idx ≥ cfg.base.maxStack) := by simp [ESt.idx, h1, h2]; omega
+  have hnd : ¬ (d ≥ cfg.base.depthOpt) := by omega
+  cases k <;>
+  simp [entryE, entryFilterCheckE, checkRstackE, hidx, hp.optIn, hp.locIn, hp.trig,
+    saveFilt, matchFilt, earlyOut, trigFilt, depthLimit, trigEnabled,
+    entryFilterRecordE, entryEvents, h3, h4, h5, h6, h7, h8, h9, h10, hnd, h2, entryBase, entryFrame, freshFrame,
+    plainFrame, show (Kind.pg == Kind.cyg) = false from rfl, show (Kind.cyg == Kind.pg) = false from rfl]
+
+theorem entryE_T (cfg : ECfg) (hp : PlainT cfg) (k : Kind) (s : ESt) (d f t0 : Nat) (o : Obs)
+    (hg : GoodT s d) (hm : d < cfg.base.maxStack) (hd : d < cfg.base.depthOpt) :
+    (entryE cfg k s f t0 o).2 = true ∧
+    (entryE cfg k s f t0 o).1.out = s.out ∧
+    (entryE cfg k s f t0 o).1.frames = entryFrame cfg k f t0 d o :: s.frames ∧
+    (∃ W, (entryE cfg k s f t0 o).1.pend = s.pend ++ W ∧
+      ∀ e ∈ W, IsWatchEv (watchTime (plainFrame k f t0 d) s.winited) (watchTag cfg d) e) ∧
+    GoodT (entryE cfg k s f t0 o).1 (d + 1) := by
+  rw [entryE_T_unfold cfg hp k s d f t0 o hg hm hd]
+  obtain ⟨h1, h2, h3, h4, h5, h6, h7, h8, h9, h10, h11, h12⟩ := hg
+  have hmax := hp.maxs
+  have hFb := entryFrame_b cfg k f t0 d o
+  have hpa : ∀ e ∈ (entryBase s d { b := { addr := f, start := t0, depth := d, cyg := k == .cyg } }).pend,
+      e.idx < ASYNC_IDX := fun e he => by have := h12 e he; omega
+  have htag : watchTag cfg s.frames.length < ASYNC_IDX := by unfold watchTag; split <;> omega
+  obtain ⟨a1, a2, a3, a4, a5, a6, W, a7, a8⟩ := entryFinish_spec cfg _ (entryFrame cfg k f t0 d o) s.frames o hpa htag
+  refine ⟨rfl, a2, a1, ⟨W, a7, ?_⟩, ?_⟩
+  · intro e he
+    have := a8 e he
+    rw [hFb, h2] at this
+    exact this
+  · exact entryFinish_good cfg _ _ _ o d h2 (by omega) h1 rfl rfl rfl rfl rfl rfl rfl rfl
+      (by rw [hFb]; simp [plainFrame]) h11 h12
+
+
+/-- the state mcount_exit_filter_record hands to save_watchpoint -/
+def exitBase (s2 : ESt) (top : EFrame) (rest : List EFrame) : ESt :=
+  { s2 with
+    frames := top :: rest,
+    filt := { s2.filt with
+      inCount := if top.b.filtered then s2.filt.inCount - 1 else s2.filt.inCount,
+      outCount := if !top.b.filtered && top.b.notrace then s2.filt.outCount - 1 else s2.filt.outCount,
+      depth := top.b.sDepth, maxDepth := top.b.sMaxDepth, time := top.b.sTime, size := top.b.sSize },
+    recordIdx := s2.recordIdx - 1 }
+
+/-- the exit hook of a recorded frame while tracing is on, up to save_watchpoint -/
+theorem exitE_T_unfold (cfg : ECfg) (s2 : ESt) (top : EFrame) (rest : List EFrame) (t1 : Nat) (o : Obs)
+    (hfr : s2.frames = top :: rest) (hover : s2.over = 0) (hnr : top.b.norecord = false)
+    (hen : s2.enabled = true) (hft : s2.filt.time = noTime) :
+    exitE cfg s2 t1 o =
+      { exitFinish cfg (exitBase s2 (setEnd top t1) rest) (setEnd top t1)
+          (exitArea cfg (setEnd top t1) (rest.length + 1) o) rest cfg.base.threshold (!top.b.cyg && top.retFl) o with
+        frames := (exitFinish cfg (exitBase s2 (setEnd top t1) rest) (setEnd top t1)
+          (exitArea cfg (setEnd top t1) (rest.length + 1) o) rest cfg.base.threshold (!top.b.cyg && top.retFl) o).frames.tail } := by
+  simp [exitE, hover, hfr, hnr, exitFilterRecordE, exitEvents, hft, hen, exitBase]
+  repeat' (first | rfl | constructor)
+
+/-- the tail of the exit hook for a call the time filter drops (repaired tag rule): the pending watch
+    events of this call and of its callees go, everything older stays, nothing is written -/
+theorem exitFinish_drop (cfg : ECfg) (sB : ESt) (f f1 : EFrame) (rest : List EFrame) (tf : Nat) (retv : Bool) (o : Obs)
+    (hshort : ¬ (f.b.endT - f.b.start > tf)) (hw : f.b.written = false) (htr : f.b.trace = false)
+    (p0 W0 : List Ev) (hpend : sB.pend = p0 ++ W0) (h0 : ∀ e ∈ p0, e.idx < rest.length + 1)
+    (hW0 : ∀ e ∈ W0, e.idx = rest.length + 1) (hfix : cfg.fixIdx = true) (hmax : rest.length + 1 < ASYNC_IDX) :
+    (exitFinish cfg sB f f1 rest tf retv o).pend = p0 ∧
+    (exitFinish cfg sB f f1 rest tf retv o).frames = f1 :: rest ∧
+    (exitFinish cfg sB f f1 rest tf retv o).out = sB.out ∧
+    (exitFinish cfg sB f f1 rest tf retv o).over = sB.over ∧
+    (exitFinish cfg sB f f1 rest tf retv o).recordIdx = sB.recordIdx ∧
+    (exitFinish cfg sB f f1 rest tf retv o).filt = sB.filt ∧
+    (exitFinish cfg sB f f1 rest tf retv o).enabled = sB.enabled := by
+  obtain ⟨hs, W, hW, hWe⟩ := watchStep_spec cfg sB f1.b rest.length o
+  have htag : watchTag cfg rest.length = rest.length + 1 := by simp [watchTag, hfix]
+  have hWi : ∀ e ∈ W0 ++ W, e.idx = rest.length + 1 := by
+    intro e he
+    simp only [List.mem_append] at he
+    rcases he with he | he
+    · exact hW0 e he
+    · rw [(hWe e he).2.1, htag]
+  have hp' : (watchStep cfg sB f1.b rest.length o).pend = p0 ++ (W0 ++ W) := by rw [hW, hpend]; simp
+  have hna : hasAsync (watchStep cfg sB f1.b rest.length o).pend = false := by
+    apply hasAsync_false
+    intro e he
+    rw [hp'] at he
+    simp only [List.mem_append] at he
+    rcases he with he | he
+    · have := h0 e he; omega
+    · have := hWi e (by simpa using he); omega
+  have hks : keepSync (watchStep cfg sB f1.b rest.length o).pend (rest.length + 1) = p0 := by
+    rw [hp']
+    exact keepSync_split p0 (W0 ++ W) (rest.length + 1) h0 (fun e he => by have := hWi e he; omega)
+  have hc : ((decide (f.b.endT - f.b.start > tf) && (!cfg.base.callerMode || f.b.caller)) || f.b.written || f.b.trace) = false := by
+    simp [hshort, hw, htr]
+  unfold exitFinish
+  simp only [hc, Bool.false_eq_true, ↓reduceIte, hna]
+  by_cases hem : (watchStep cfg sB f1.b rest.length o).pend.isEmpty = true
+  · simp only [hem, Bool.not_true, Bool.false_eq_true, ↓reduceIte]
+    have : p0 = [] := by
+      have h := List.isEmpty_iff.mp hem
+      rw [hp'] at h
+      simpa using (List.append_eq_nil_iff.mp h).1
+    refine ⟨by rw [List.isEmpty_iff.mp hem, this], by first | rfl | trivial, hs.out, hs.over, hs.recordIdx, hs.filt, hs.enabled⟩
+  · simp only [hem, Bool.not_false, ↓reduceIte]
+    exact ⟨hks, by first | rfl | trivial, hs.out, hs.over, hs.recordIdx, hs.filt, hs.enabled⟩
+
+
+mutual
+  /-- every call of the history lasts at most `thr` (so the time filter -t thr drops it) -/
+  def ECall.short (thr : Nat) : ECall → Prop
+    | .node _ t0 t1 _ _ kids => t1 - t0 ≤ thr ∧ kids.short thr
+  def ECalls.short (thr : Nat) : ECalls → Prop
+    | .nil => True
+    | .cons c rest => c.short thr ∧ rest.short thr
+end
+
+theorem exitE_T_drop (cfg : ECfg) (hp : PlainT cfg) (hfix : cfg.fixIdx = true) (k : Kind) (s s2 : ESt)
+    (d f t0 t1 : Nat) (F : EFrame) (o : Obs) (W : List Ev)
+    (hb : F.b = plainFrame k f t0 d) (hg : GoodT s d) (hg2 : GoodT s2 (d + 1))
+    (hfr : s2.frames = F :: s.frames) (hpend : s2.pend = s.pend ++ W) (hW : ∀ e ∈ W, e.idx = d + 1)
+    (hout : s2.out = s.out) (hshort : t1 - t0 ≤ cfg.base.threshold) (hdm : d + 1 < ASYNC_IDX) :
+    (exitE cfg s2 t1 o).out = s.out ∧
+    (exitE cfg s2 t1 o).pend = s.pend ∧
+    (exitE cfg s2 t1 o).frames = s.frames ∧
+    GoodT (exitE cfg s2 t1 o) d := by
+  have hnr : F.b.norecord = false := by rw [hb]; rfl
+  have hu := exitE_T_unfold cfg s2 F s.frames t1 o hfr hg2.over hnr hg2.en hg2.ftime
+  have hlen := hg.len
+  obtain ⟨a1, a2, a3, a4, a5, a6, a7⟩ := exitFinish_drop cfg (exitBase s2 (setEnd F t1) s.frames) (setEnd F t1)
+    (exitArea cfg (setEnd F t1) (s.frames.length + 1) o) s.frames cfg.base.threshold (!F.b.cyg && F.retFl) o
+    (by simp [hb, plainFrame]; omega) (by simp [hb, plainFrame]) (by simp [hb, plainFrame])
+    s.pend W (by simp [exitBase, hpend]) (by rw [hlen]; exact hg.pend) (by rw [hlen]; exact hW) hfix
+    (by rw [hlen]; exact hdm)
+  rw [hu]
+  refine ⟨by simp only [a3]; simp [exitBase, hout], by simp only [a1], by simp only [a2]; rfl, ?_⟩
+  constructor
+  · simp only [a4]; simp [exitBase, hg2.over]
+  · simp only [a2]; simpa using hlen
+  · simp only [a5]; simp [exitBase, hg2.ridx]
+  · simp only [a7]; simp [exitBase, hg2.en]
+  · simp only [a6]; simp [exitBase, hb, plainFrame, hg2.inc]
+  · simp only [a6]; simp [exitBase, hb, plainFrame, hg2.outc]
+  · simp only [a6]; simp [exitBase, hb, plainFrame]
+  · simp only [a6]; simp [exitBase, hb, plainFrame]
+  · simp only [a6]; simp [exitBase, hb, plainFrame]
+  · simp only [a6]; simp [exitBase, hb, plainFrame]
+  · simp only [a2]; simpa using hg.noskip
+  · simp only [a1]; exact hg.pend
+
+mutual
+/-- a call the time filter drops — with everything it calls — leaves no trace: nothing is written,
+    the pending events and the open frames are as before (repaired tag rule, `fixIdx`) -/
+theorem dropped_call (cfg : ECfg) (hp : PlainT cfg) (hfix : cfg.fixIdx = true) (k : Kind) :
+    ∀ (c : ECall) (s : ESt) (d : Nat), GoodT s d → d + c.height ≤ cfg.base.maxStack →
+      d + c.height ≤ cfg.base.depthOpt → c.short cfg.base.threshold →
+      (runECall cfg k s c).out = s.out ∧ (runECall cfg k s c).pend = s.pend ∧
+      (runECall cfg k s c).frames = s.frames ∧ GoodT (runECall cfg k s c) d
+  | .node f t0 t1 oE oX kids, s, d, hg, hm, hd, hs => by
+    simp only [ECall.height] at hm hd
+    simp only [ECall.short] at hs
+    have hmax := hp.maxs
+    obtain ⟨e1, e2, e3, ⟨W, e4, e5⟩, e6⟩ := entryE_T cfg hp k s d f t0 oE hg (by omega) (by omega)
+    obtain ⟨k1, k2, k3, k4⟩ := dropped_calls cfg hp hfix k kids (entryE cfg k s f t0 oE).1 (d + 1) e6
+      (by omega) (by omega) hs.2
+    simp only [runECall, e1, ↓reduceIte]
+    have htag : watchTag cfg d = d + 1 := by simp [watchTag, hfix]
+    exact exitE_T_drop cfg hp hfix k s _ d f t0 t1 (entryFrame cfg k f t0 d oE) oX W
+      (entryFrame_b cfg k f t0 d oE) hg k4 (by rw [k3, e3]) (by rw [k2, e4])
+      (fun e he => by rw [(e5 e he).2.1, htag]) (by rw [k1, e2]) hs.1 (by omega)
+theorem dropped_calls (cfg : ECfg) (hp : PlainT cfg) (hfix : cfg.fixIdx = true) (k : Kind) :
+    ∀ (cs : ECalls) (s : ESt) (d : Nat), GoodT s d → d + cs.height ≤ cfg.base.maxStack →
+      d + cs.height ≤ cfg.base.depthOpt → cs.short cfg.base.threshold →
+      (runECalls cfg k s cs).out = s.out ∧ (runECalls cfg k s cs).pend = s.pend ∧
+      (runECalls cfg k s cs).frames = s.frames ∧ GoodT (runECalls cfg k s cs) d
+  | .nil, s, d, hg, _, _, _ => by simp [runECalls, hg]
+  | .cons c rest, s, d, hg, hm, hd, hs => by
+    simp only [ECalls.height] at hm hd
+    simp only [ECalls.short] at hs
+    obtain ⟨c1, c2, c3, c4⟩ := dropped_call cfg hp hfix k c s d hg (by omega) (by omega) hs.1
+    obtain ⟨r1, r2, r3, r4⟩ := dropped_calls cfg hp hfix k rest (runECall cfg k s c) d c4 (by omega) (by omega) hs.2
+    simp only [runECalls]
+    exact ⟨by rw [r1, c1], by rw [r2, c2], by rw [r3, c3], r4⟩
+end
 
 end Uft.Events
